@@ -44,8 +44,12 @@ def bare_name_write(writer_cls, fm, ext, expect):
     old = os.getcwd()
     try:
         os.chdir(base)
-        for name in ('model.' + ext, 'my m\u00f6del.' + ext):
+        for name in ('model.' + ext, 'my m\u00f6del.' + ext, 'longer before.' + ext):
             try:
+                if name.startswith('longer'):
+                    with open(name, 'wb') as fh:          # the destination already holds a longer document
+                        raw = expect if isinstance(expect, bytes) else expect.encode('utf8')
+                        fh.write(raw + b'\n' + raw[:max(1, len(raw) // 2)] + b'\nleft over\n')
                 ret = writer_cls(name, fm).transform()
                 data = open(name, 'rb').read()
             except Exception as exc:  # noqa: BLE001
